@@ -443,3 +443,12 @@ def check_C10_full(tier_):
     add_hist(res, st, "C10", "front", lambda f: (f["why"][:50], "%s" % f["why"][:500], {"record": {k: v for k, v in (f["record"] or {}).items() if k != "gotb"}}))
     return res
 CHECKS["C10"] = check_C10_full
+
+_c06_core = CHECKS["C06"]
+def check_C06_full(tier_):
+    """C06 also on the files the front ends write (FRAME must span exactly the rest of the file)"""
+    res = _c06_core(tier_)
+    st = hist.front_stage(tier_, tree_key())
+    add_hist(res, st, "C06", "front", lambda f: (f["why"][:50], "%s" % f["why"][:500], {"record": {k: v for k, v in (f["record"] or {}).items() if k != "gotb"}}))
+    return res
+CHECKS["C06"] = check_C06_full
